@@ -168,7 +168,7 @@ def main(tier, seed, replay):
             wg.check_exact_decimals(gdoc)
             import json as _json
             c.files[gfn] = _json.dumps(gdoc, indent=1)
-            world(c, 2 + k, core.workfile(PID, gfn))
+            iw = world(c, 2 + k, core.workfile(PID, gfn))
             tj = c.add('tags', 2 + k)
             idx = []
             for (sx, sy, d) in pts:
@@ -176,7 +176,7 @@ def main(tier, seed, replay):
                 if ctx.sph:
                     gx = ((gx + 180.0) % 360.0) - 180.0
                 idx.append(q3(c, 2 + k, ctx, gx, gy, d, PROPS))
-            mplans.append((mo, 2 + k, tj, idx, gfn))
+            mplans.append((mo, iw, tj, idx, gfn))
         jobs.append((c, ctx, pts, ti[0], base_idx, mplans, fn, doc))
     core.run_cases('asan', [j[0] for j in jobs], PID)
     pending = []
@@ -186,8 +186,8 @@ def main(tier, seed, replay):
         if not ok(c.results[0]):
             continue
         tags = c.results[ti][1].split('|') if c.results[ti][1] else []
-        for (mo, wid, tj, idx, gfn) in mplans:
-            rw = c.results[wid - 1]
+        for (mo, iw, tj, idx, gfn) in mplans:
+            rw = c.results[iw]
             if rw[0] == 'missing':
                 continue
             if not ok(rw):
@@ -237,7 +237,7 @@ def main(tier, seed, replay):
                 if inside and mo['nontrivial']:
                     V.nontrivial((fn, gfn, p))
         V.sample({'world': fn, 'motions': [{k: v for k, v in m[0].items() if k != 'g'} for m in mplans], 'point': pts[0], 'W': c.results[base_idx[0]][1][:60]}, limit=4)
-    res = margin_pass('asan', PID, [p['item'] for p in pending])
+    res = margin_pass('asan', PID, [p['item'] for p in pending], position_noise_m=0.2)
     excused = 0
     for p, (exc, info) in zip(pending, res):
         if exc:
